@@ -376,7 +376,19 @@ func runRtspOnce(c *RtspCase, pk []wirePkt) ([]observed, *pbt.Violation) {
 	if c.S.Video == "" {
 		chA = 0
 	}
-	for _, p := range pk {
+	drain := func() *pbt.Violation {
+		if !conn.WaitPeerIdle(lalclient.IdleTimeout) {
+			lalclient.Harness("c07: rtsp publisher not drained")
+		}
+		if conn.PeerGone() {
+			if v := s.PanicViolation(); v != nil {
+				return v
+			}
+			return pbt.V("rtsp/publisher-disconnected", "lal ended the publishing session while RTP was being delivered")
+		}
+		return nil
+	}
+	for i, p := range pk {
 		ch := chV
 		if p.track == 1 {
 			ch = chA
@@ -387,15 +399,17 @@ func runRtspOnce(c *RtspCase, pk []wirePkt) ([]observed, *pbt.Violation) {
 			}
 			return nil, pbt.V("rtsp/publisher-disconnected", "lal closed the publisher's connection: %v", err)
 		}
-	}
-	if !conn.WaitPeerIdle(lalclient.IdleTimeout) {
-		lalclient.Harness("c07: rtsp publisher not drained")
-	}
-	if conn.PeerGone() {
-		if v := s.PanicViolation(); v != nil {
-			return nil, v
+		if i%syncEvery == syncEvery-1 {
+			if v := drain(); v != nil {
+				return nil, v
+			}
+			if v := x.sync(); v != nil {
+				return nil, v
+			}
 		}
-		return nil, pbt.V("rtsp/publisher-disconnected", "lal ended the publishing session while RTP was being delivered")
+	}
+	if v := drain(); v != nil {
+		return nil, v
 	}
 	return x.finish()
 }
@@ -550,6 +564,12 @@ func classifyRtsp(c RtspCase) (bool, []string) {
 		pert = reordered || dup
 	} else {
 		l = append(l, "pert:none")
+	}
+	for _, x := range l {
+		if len(x) > 5 && x[:5] == "pert:" {
+			l = append(l, combo("rtsp", &c.S, x[5:]))
+			break
+		}
 	}
 	if c.S.Audio != "" {
 		l = append(l, fmt.Sprintf("aclock:%d", c.S.AClock))
